@@ -133,7 +133,7 @@ EXTRA = {
         "item's end and on HEADER/TEXT/parts; a section menu is fetched for every shape. Third session: RENAME INBOX and header/ENVELOPE fetches in the history alphabet. Fourth session: shapes with an empty multipart boundary and with no header fields at all (a text with an empty line of its own).",
  "C17": " A second, deeper BFS over an eight-event core alphabet; names behind the namespace prefix and names with all-digit components; LSUB attributes and the advertised "
         "LIST-EXTENDED forms (SUBSCRIBED selection, RETURN SUBSCRIBED/CHILDREN/STATUS) are compared too. Third session: a plan over look-alike names (a_b / axb / axb/k: SQL LIKE wild cards; letter case; w / w/x / w-old: names sorting below '/'). Mixed-case INBOX patterns with wild cards in the LIST / LSUB menu.",
- "C18": " 'Current password': the password file is rewritten (changed, disabled, removed, same hash) while the server runs; the old password must then be refused. Fourth session: the throttle alphabet has another spelling of an account's name (LOGIN \"bob \"): it is no account, and may not become a second allowance of guesses.",
+ "C18": " 'Current password': the password file is rewritten (changed, disabled, removed, same hash) while the server runs; the old password must then be refused. Fourth session: the throttle alphabet has another spelling of an account's name (LOGIN \"bob \"): it is no account, and may not become a second allowance of guesses. The password-change cells also put the file back with an earlier modification time.",
  "C19": " The menu has 15 items (incl. commands ending directly after a literal whose last octets look like a declaration). Third session: the client connection's stream buffer is lowered together with MAX_INPUT_SIZE (40 < 64, as 64 KiB < 10 MiB in production); 17 items incl. lines longer than the buffer. Both directions at once: a pipelined synchronising literal while a response is being relayed (open finding F112); stream buffer 12 vs limit 64 with a trickling segmentation.",
  "C20": " A second BFS starts with the POP3 session open over the DELE/RSET/QUIT bookkeeping; a schedule part races QUIT, RETR and TOP against IMAP EXPUNGE / UID FETCH / MOVE / APPEND "
         "(the POP3 handler's own attributes are part of the canonical state). Relay part: RETR replies with lines of 1 .. 300000 octets through the real POP3 front-end relay, three segmentations, delivered unmodified.",
